@@ -115,7 +115,10 @@ func (c *conn) handshakeAsServer() status.Status {
 		if err != nil {
 			return mpxError(err)
 		}
-		return c.writer.writeAndFlush(resp)
+		if st := c.writer.writeAndFlush(resp); !st.OK() {
+			return st
+		}
+		return mpxErrorf("unsupported protocol versions")
 	}
 
 	// Select compression
